@@ -303,11 +303,6 @@ for _k in ('empty', 'ones', 'zeros'):
     METHODS[('Tensor', 'new_' + _k)] = _mk_new(_k)
 
 
-@method('Tensor', 'real')
-def _real(eng, st, recv, args, kwargs):
-    return recv
-
-
 # properties: .shape .dtype .device .data .grad .real are fields / views
 def tensor_attr(eng, st, recv, attr):
     if attr in ('shape', 'dtype', 'device', 'grad', 'requires_grad'):
